@@ -151,6 +151,79 @@ impl<L: LitName> Subject for AagStream<L> {
     }
 }
 
+/// Streaming API used the lazy way: every section is skipped by asking for the next one.
+pub struct AagSkip<L>(pub PhantomData<fn() -> L>);
+impl<L: LitName> Subject for AagSkip<L> {
+    fn name(&self) -> String {
+        format!("aag-skip<{}>", L::NAME)
+    }
+    fn streaming(&self) -> bool {
+        false
+    }
+    fn run(&self, reader: DeferredReader<'_>, emit: &mut dyn FnMut(String)) -> End {
+        let p = tri!(ascii::Parser::<L>::new(LineReader::new(reader), ascii::Config::default()));
+        emit(format!("header {:?}", p.header()));
+        let r = tri!(p.inputs());
+        let r = tri!(r.latches());
+        let r = tri!(r.outputs());
+        let r = tri!(r.bad_state_properties());
+        let r = tri!(r.invariant_constraints());
+        let r = tri!(r.justice_properties());
+        let r = tri!(r.justice_property_local_fairness_constraints());
+        let r = tri!(r.fairness_constraints());
+        let r = tri!(r.and_gates());
+        let mut r = tri!(r.symbols());
+        match r.comment() {
+            Ok(Some(c)) => {
+                let c = c.as_bytes().to_vec();
+                emit(format!("comment {:?}", c));
+            }
+            Ok(None) => {}
+            Err(e) => return end_of(e),
+        }
+        End::Clean
+    }
+}
+
+pub struct AigSkip<L>(pub PhantomData<fn() -> L>);
+impl<L: LitName> Subject for AigSkip<L> {
+    fn name(&self) -> String {
+        format!("aig-skip<{}>", L::NAME)
+    }
+    fn streaming(&self) -> bool {
+        false
+    }
+    fn boundaries(&self, input: &[u8]) -> Vec<usize> {
+        binary_boundaries(input)
+    }
+    fn line_breaks(&self, input: &[u8]) -> Vec<usize> {
+        let (lo, hi) = binary_section(input);
+        input.iter().enumerate().filter(|(i, &b)| b == b'\n' && !(*i >= lo && *i < hi)).map(|(i, _)| i).collect()
+    }
+    fn run(&self, reader: DeferredReader<'_>, emit: &mut dyn FnMut(String)) -> End {
+        let p = tri!(binary::Parser::<L>::new(LineReader::new(reader), binary::Config::default()));
+        emit(format!("header {:?}", p.header()));
+        let r = tri!(p.latches());
+        let r = tri!(r.outputs());
+        let r = tri!(r.bad_state_properties());
+        let r = tri!(r.invariant_constraints());
+        let r = tri!(r.justice_properties());
+        let r = tri!(r.justice_property_local_fairness_constraints());
+        let r = tri!(r.fairness_constraints());
+        let r = tri!(r.and_gates());
+        let mut r = tri!(r.symbols());
+        match r.comment() {
+            Ok(Some(c)) => {
+                let c = c.as_bytes().to_vec();
+                emit(format!("comment {:?}", c));
+            }
+            Ok(None) => {}
+            Err(e) => return end_of(e),
+        }
+        End::Clean
+    }
+}
+
 pub struct AigParse<L>(pub PhantomData<fn() -> L>);
 impl<L: LitName> Subject for AigParse<L> {
     fn name(&self) -> String {
@@ -381,6 +454,8 @@ fn mk<L: LitName>(kind: &str) -> Box<dyn Subject> {
         "aag-parse" => Box::new(AagParse::<L>(PhantomData)),
         "aag-stream" => Box::new(AagStream::<L>(PhantomData)),
         "aig-parse" => Box::new(AigParse::<L>(PhantomData)),
+        "aag-skip" => Box::new(AagSkip::<L>(PhantomData)),
+        "aig-skip" => Box::new(AigSkip::<L>(PhantomData)),
         "aig-stream" => Box::new(AigStream::<L>(PhantomData)),
         other => panic!("unknown subject kind {other}"),
     }
@@ -405,5 +480,7 @@ pub fn subjects(format: &str, lits: &[&str]) -> Vec<Box<dyn Subject>> {
         v.push(make(&format!("{format}-parse"), l));
         v.push(make(&format!("{format}-stream"), l));
     }
+    // the lazy way of using the streaming API, once
+    v.push(make(&format!("{format}-skip"), lits[0]));
     v
 }
